@@ -518,6 +518,13 @@ COHERENCE_C_THEOREMS = ["AurelVerif.C01Coherence." + t for t in (
     "st_Ricci_down4_onshell_coherent", "st_Ricci_down4_onshell_coherent_noshift", "st_Ricci_down4_vacuum_coherent",
     "st_Ricci_down3_onshell_coherent", "exOn_hyp", "exOn_cached", "exOn_onshell", "exKas_ricci_full", "exKasV_hyp",
     "exKasM_hyp", "exKasM_onshell")]
+# extension round 2: the guard 'st_Riemann_down4' in self.data.keys() of st_Weyl_down4 (Riemann-based vs E/B-based Weyl tensor);
+# the theorems live with property C10 (Props/C10Coh.lean, namespace AurelVerif.C10) and are audited here as well
+COHERENCE_W_MODULE = "AurelVerif.Props.C10Coh"
+COHERENCE_W_THEOREMS = ["AurelVerif.C10." + t for t in (
+    "weyl_is_weylEB_of_parts", "weyl_constructions_agree", "weyl_constructions_agree_vacuum",
+    "st_Weyl_down4_onshell_coherent", "st_Weyl_down4_coherent_contraction", "st_Weyl_down4_vacuum_coherent",
+    "st_Weyl_down4_onshell_coherent_noshift", "st_Weyl_down4_vacuum_coherent_noshift")]
 SHARP_MODULE = "AurelVerif.Props.C01M"
 SHARP_THEOREMS = ["AurelVerif.C01." + t for t in (
     "get_transparent_sharp", "history_values_sharp", "tableCoh_implies_sharp", "flag_guard_constant",
@@ -532,7 +539,7 @@ COHERENCE_NEEDED = ["gxx", "gxy", "gxz", "gyy", "gyz", "gzz", "gammadown3", "kxx
                     "Momentumz", "st_Riemann_down4", "st_Riemann_uddd4", "st_Ricci_down4", "st_Ricci_down3",
                     "st_Weyl_down4"]
 COHERENCE_LEAN_FILES = ["AurelVerif/Props/C01Coherence.lean", "AurelVerif/Props/C01CoherenceA.lean",
-                        "AurelVerif/Props/C01CoherenceC.lean", "AurelVerif/Props/C01M.lean",
+                        "AurelVerif/Props/C01CoherenceC.lean", "AurelVerif/Props/C10Coh.lean", "AurelVerif/Props/C01M.lean",
                         "AurelVerif/Props/C01Sub.lean", "AurelVerif/Lemmas/CacheGetM.lean"]
 
 # --------------------------------------------------------------------------
@@ -637,14 +644,20 @@ COHERENCE_TABLE = [
      "note": "on solutions of Einstein's equations only (hypothesis OnShell), exact differentiation (CurvHyp); false off shell"},
     {"guard": "'st_Riemann_down4' in self.data.keys()", "class": "c", "methods": ["st_Weyl_down4"],
      "covers": ["st_Weyl_down4__st_Riemann_down4_matter", "st_Weyl_down4__st_Riemann_down4_vacuum"],
-     "mention": [],
-     "theorems": [], "decls": [],
+     "theorems": ["AurelVerif.C10.st_Weyl_down4_onshell_coherent", "AurelVerif.C10.st_Weyl_down4_coherent_contraction",
+                  "AurelVerif.C10.st_Weyl_down4_vacuum_coherent", "AurelVerif.C10.st_Weyl_down4_onshell_coherent_noshift",
+                  "AurelVerif.C10.st_Weyl_down4_vacuum_coherent_noshift", "AurelVerif.C10.weyl_constructions_agree",
+                  "AurelVerif.C10.weyl_constructions_agree_vacuum", "AurelVerif.C10.weyl_is_weylEB_of_parts"],
+     "decls": [(P + "C10Coh.lean", "st_Weyl_down4_onshell_coherent"), (P + "C10Coh.lean", "st_Weyl_down4_vacuum_coherent")],
      "partial": ["AurelVerif.C10.weyl_alt1_weylLike", "AurelVerif.C10.weyl_alt2_weylLike",
                  "AurelVerif.C10.weyl_alt2_normal_frame"],
-     "gap": "Riemann-based vs E/B-based Weyl tensor: NOT a theorem. Proven: both are tensors with the Weyl symmetries, "
-            "the E/B form has electric/magnetic parts s_to_st(E), s_to_st(B). Missing: the electric/magnetic parts of the "
-            "Riemann-based tensor are the code's eweyl_n_down3/bweyl_n_down3 (Gauss, Codazzi, Mainardi + Einstein) and "
-            "that a Weyl-like tensor is determined by them. Covered by the C01/C10 oracles on exact solutions only."},
+     "note": "Riemann-based vs E/B-based Weyl tensor, all 256 components (Props/C10Coh.lean): a tensor with the Riemann "
+             "symmetries and vanishing trace is determined by its electric and magnetic parts w.r.t. the normal; those of the "
+             "Riemann-based tensor are the code's eweyl_n_down3 / bweyl_n_down3. Layer B (CurvHyp, additive Leibniz operator), "
+             "positive lapse (sqrt(-g) = alpha sqrt(gamma)); ON SHELL (hypothesis OnShell) when the cached st_Ricci_down4 came from "
+             "Tdown4, on a vacuum solution for vacuum = True; off shell as well when st_Ricci_down4 is the contraction of the "
+             "cached Riemann tensor (st_Weyl_down4_coherent_contraction). False off shell in the Tdown4 cache state (the two "
+             "differ by the constraint violations) and for a negative lapse (sign of the magnetic part)."},
     {"guard": "self.vacuum", "class": "option",
      "methods": ["Hamiltonian", "Hamiltonian_Escale", "Momentum_Escale", "Momentumup3", "dtAdown3_bssnok", "dtKtrace",
                  "dts_Gamma_bssnok", "eweyl_n_down3", "st_Riemann_down4", "st_Weyl_down4"],
@@ -816,6 +829,7 @@ def run(ctx):
             ctx.prove(COHERENCE_MODULE, COHERENCE_THEOREMS, timeout=2400)
             ctx.prove(COHERENCE_A_MODULE, COHERENCE_A_THEOREMS, timeout=2400)
             ctx.prove(COHERENCE_C_MODULE, COHERENCE_C_THEOREMS, timeout=2400)
+            ctx.prove(COHERENCE_W_MODULE, COHERENCE_W_THEOREMS, timeout=2400)
             ctx.prove(SHARP_MODULE, SHARP_THEOREMS, timeout=2400)
             ctx.prove(SUB_MODULE, SUB_THEOREMS, timeout=2400)
             ctx.forbidden_scan(COHERENCE_LEAN_FILES)
